@@ -25,9 +25,11 @@ def mutate(rng, s):
     # (the deferred-activation ordering difference without it is the recorded finding D19)
     s.ops = [s.ops[0], ("activate",)] + list(s.ops[1:])
     if not s.is_async() and s.cbs:
-        rng.choice(s.cbs).coro = True
+        rng.choice([c for c in s.cbs if not c.alias_of and c.id not in {x.alias_of for x in s.cbs}] or s.cbs).coro = True
         c = [c for c in s.cbs if c.coro][0]
         c.yields = rng.randint(0, 3)
+        # the machine's only coroutine callback may sit behind a signature-preserving decorator
+        c.wrap = rng.choice(["", "", "wraps", "sig"])
         if s.driver == "sync":
             s.driver = rng.choice(["facade", "loop"])
     s.rtc = True
@@ -206,7 +208,7 @@ def run(ctx):
     tot = {}
     first = True
     for tag, prof in PROFILES.items():
-        n = {"all": (350, 8000), "mixed": (500, 12000), "one": (250, 6000)}[tag]
+        n = {"all": (280, 8000), "mixed": (400, 12000), "one": (220, 6000)}[tag]
         engine_check(ctx, prof, n[0], n[1], nontrivial, monitor=monitor, post=post, tag="C05" + tag, mutate=mutate)
         for k in ("evaluations", "distinct_nontrivial", "traces_validated_against_impl", "disagreements", "monitor_failures"):
             tot[k] = tot.get(k, 0) + ctx.coverage.get(k, 0)
